@@ -36,10 +36,14 @@ pub fn main(args: &[String]) {
 
 fn scenario(rng: &mut StdRng, seed: u64, scen: usize, out: &mut Out) {
     let nperm = rng.gen_range(0..=2usize);
-    let linger_ms: u64 = if rng.gen_bool(0.7) { rng.gen_range(4..20) } else { 0 };
-    let ntasks = rng.gen_range(1..=6usize);
+    let linger_ms: u64 = if rng.gen_bool(0.7) { if rng.gen_bool(0.3) { rng.gen_range(1..4) } else { rng.gen_range(4..20) } } else { 0 };
+    let ntasks = rng.gen_range(1..=7usize);
+    // a quarter of the scenarios: every task goes through the blocking submit() and takes 0-2 ms, so that several
+    // submitters are blocked on the pool when shutdown begins
+    let blocking = nperm > 0 && rng.gen_bool(0.25);
+    let busy_us: u64 = if blocking || rng.gen_bool(0.3) { rng.gen_range(200..2000) } else { 0 };
     // 1 = submit_or_spawn, 0 = submit (blocks for a worker: only meaningful with permanent workers or lingering ones)
-    let kinds: Vec<u8> = (0..ntasks).map(|_| if nperm == 0 || rng.gen_bool(0.6) { 1 } else { 0 }).collect();
+    let kinds: Vec<u8> = (0..ntasks).map(|_| if blocking { 0 } else if nperm == 0 || rng.gen_bool(0.6) { 1 } else { 0 }).collect();
     let hold_prob = if rng.gen_bool(0.6) { 0.5 } else { 0.0 };
     let jitter = rng.gen_bool(0.7);
     let wait_all_ran = rng.gen_bool(0.5);
@@ -77,7 +81,7 @@ fn scenario(rng: &mut StdRng, seed: u64, scen: usize, out: &mut Out) {
         let pool = pool.clone();
         let kind = *kind;
         let id = i as i64 + 1;
-        let delay = rng.gen_range(0..(linger_ms.max(2) * 2000));
+        let delay = if blocking { rng.gen_range(0..400) } else { rng.gen_range(0..(linger_ms.max(2) * 2000)) };
         let (accepted, ran, returned) = (accepted.clone(), ran.clone(), returned.clone());
         handles.push(
             std::thread::Builder::new()
@@ -88,6 +92,7 @@ fn scenario(rng: &mut StdRng, seed: u64, scen: usize, out: &mut Out) {
                     let ran2 = ran.clone();
                     let task = move || {
                         verif::emit("HRan", &[("task", id)]);
+                        if busy_us > 0 { std::thread::sleep(Duration::from_micros(busy_us)); }
                         ran2.fetch_add(1, Ordering::SeqCst);
                     };
                     let res = if kind == 1 { pool.submit_or_spawn(task) } else { pool.submit(task) };
@@ -117,7 +122,7 @@ fn scenario(rng: &mut StdRng, seed: u64, scen: usize, out: &mut Out) {
             waited += 1;
         }
     } else {
-        std::thread::sleep(Duration::from_micros(rng.gen_range(0..(linger_ms.max(2) * 4000))));
+        std::thread::sleep(Duration::from_micros(if blocking { rng.gen_range(200..3000) } else { rng.gen_range(0..(linger_ms.max(2) * 4000)) }));
     }
     if hang {
         verif::emit("HHang", &[]);
